@@ -7,6 +7,7 @@
 //! `fasta::io::IndexedReader`; the oracle is a naive whole-file parse. Ragged files must be rejected
 //! or at least not mis-indexed. FASTA/FASTQ records written by noodles are read back (and indexed).
 
+mod bgz;
 mod index;
 mod model;
 mod rt;
@@ -601,7 +602,7 @@ fn main() {
     run_cases(&ctx, &mut rep, cases.len() as u64, 60.0, &f, &|i| case_json(&cases[i as usize]));
     if ctx.replay.is_none() {
         let q = ctx.quick();
-        let floors: [(&str, u64); 12] = [
+        let floors: [(&str, u64); 16] = [
             ("files", if q { 400 } else { 10000 }),
             ("queries", if q { 60_000 } else { 1_000_000 }),
             ("queries_in_range", 20_000),
@@ -614,6 +615,10 @@ fn main() {
             ("fasta_records_read_back", 300),
             ("fastq_records_read_back", 500),
             ("fastq_index_records_compared", 500),
+            ("fasta_records_read_back_through_bgzf", 300),
+            ("fastq_records_read_back_through_bgzf", 300),
+            ("queries_across_bgzf_block_boundaries", 500),
+            ("short_write_sink_runs", 100),
         ];
         for (k, need) in floors {
             let got = rep.counters.get(k).copied().unwrap_or(0);
